@@ -428,7 +428,7 @@ func ExecReader(data any, selector string) (any, error) {
 	parsed, ok := cache[selector]
 	if !ok {
 		allSelectors := make([][]any, 0)
-		selectors := strings.Split(selector, "::")
+		selectors := splitPipeline(selector)
 		for _, item := range selectors {
 			selectors, err := ParseSelector(item)
 			if err != nil {
@@ -451,6 +451,24 @@ func ExecReader(data any, selector string) (any, error) {
 		result = rs
 	}
 	return result, nil
+}
+
+// splitPipeline splits a selector at `::`, except inside a quoted key
+func splitPipeline(selector string) []string {
+	parts := make([]string, 0)
+	quoted := false
+	start := 0
+	for i := 0; i < len(selector); i++ {
+		switch {
+		case selector[i] == '\'':
+			quoted = !quoted
+		case !quoted && strings.HasPrefix(selector[i:], "::"):
+			parts = append(parts, selector[start:i])
+			start = i + 2
+			i++
+		}
+	}
+	return append(parts, selector[start:])
 }
 
 func ReaderExecutor(data any, selectors []any) (any, error) {
